@@ -8,6 +8,7 @@
 from __future__ import annotations
 
 import asyncio
+import copy
 import logging
 from abc import ABC
 from collections import deque
@@ -879,17 +880,28 @@ class _BaseHOFormulaBuilder(ABC, Generic[FormulaEngineT, QuantityT]):
         self._steps.append((TokenType.COMPONENT_METRIC, engine))
         self._create_method: Callable[[float], QuantityT] = create_method
 
+    def _copy(self) -> Self:
+        """Return a builder with the same steps, that can be extended independently.
+
+        The operators return new builders instead of changing their operands, so that
+        a sub-expression can be used in more than one formula.
+        """
+        builder = copy.copy(self)
+        builder._steps = self._steps.copy()
+        return builder
+
     def _push(
         self,
         oper: str,
         other: Self | FormulaEngineT | QuantityT | float,
     ) -> Self:
-        self._steps.appendleft((TokenType.OPER, "("))
-        self._steps.append((TokenType.OPER, ")"))
-        self._steps.append((TokenType.OPER, oper))
+        builder = self._copy()
+        builder._steps.appendleft((TokenType.OPER, "("))
+        builder._steps.append((TokenType.OPER, ")"))
+        builder._steps.append((TokenType.OPER, oper))
 
         if isinstance(other, (FormulaEngine, FormulaEngine3Phase)):
-            self._steps.append((TokenType.COMPONENT_METRIC, other))
+            builder._steps.append((TokenType.COMPONENT_METRIC, other))
         elif isinstance(other, (Quantity, float, int)):
             match oper:
                 case "+" | "-" | "max" | "min":
@@ -903,14 +915,14 @@ class _BaseHOFormulaBuilder(ABC, Generic[FormulaEngineT, QuantityT]):
                         raise RuntimeError(
                             f"A float must be provided for scalar multiplication to {other}"
                         )
-            self._steps.append((TokenType.CONSTANT, other))
+            builder._steps.append((TokenType.CONSTANT, other))
         elif isinstance(other, _BaseHOFormulaBuilder):
-            self._steps.append((TokenType.OPER, "("))
-            self._steps.extend(other._steps)  # pylint: disable=protected-access
-            self._steps.append((TokenType.OPER, ")"))
+            builder._steps.append((TokenType.OPER, "("))
+            builder._steps.extend(other._steps)  # pylint: disable=protected-access
+            builder._steps.append((TokenType.OPER, ")"))
         else:
             raise RuntimeError(f"Can't build a formula from: {other}")
-        return self
+        return builder
 
     def __add__(
         self,
@@ -1020,10 +1032,11 @@ class _BaseHOFormulaBuilder(ABC, Generic[FormulaEngineT, QuantityT]):
             A formula builder that can take further expressions, or can be built
                 into a formula engine.
         """
-        self._steps.appendleft((TokenType.OPER, "("))
-        self._steps.append((TokenType.OPER, ")"))
-        self._steps.append((TokenType.OPER, "consumption"))
-        return self
+        builder = self._copy()
+        builder._steps.appendleft((TokenType.OPER, "("))
+        builder._steps.append((TokenType.OPER, ")"))
+        builder._steps.append((TokenType.OPER, "consumption"))
+        return builder
 
     def production(
         self,
@@ -1037,10 +1050,11 @@ class _BaseHOFormulaBuilder(ABC, Generic[FormulaEngineT, QuantityT]):
             A formula builder that can take further expressions, or can be built
                 into a formula engine.
         """
-        self._steps.appendleft((TokenType.OPER, "("))
-        self._steps.append((TokenType.OPER, ")"))
-        self._steps.append((TokenType.OPER, "production"))
-        return self
+        builder = self._copy()
+        builder._steps.appendleft((TokenType.OPER, "("))
+        builder._steps.append((TokenType.OPER, ")"))
+        builder._steps.append((TokenType.OPER, "production"))
+        return builder
 
 
 class _OperandNames:
